@@ -108,11 +108,7 @@ fn c18_v1_pfa_k1() {
 fn c18_v1_pfa_k2() {
     v1_payload_from_args::<2>();
 }
-#[kani::proof]
-#[kani::unwind(10)]
-fn c18_v1_pfa_k3() {
-    v1_payload_from_args::<3>();
-}
+// (K = 3 with symbolic kinds exceeds 30 GB: not registered)
 
 /// witness for the known-finding role c18_empty_strg_rawd_no_length (run only while that entry is open)
 #[kani::proof]
